@@ -277,63 +277,72 @@ def execute_subprocess(cases, so, asan_runtime=None, workdir="."):
     return json.load(open(outp))
 
 
+def _guard_event(c, tid, why):
+    ev = {"tid": tid, "kind": c["kind"], "oob": False, "asan": True, "exc": False, "alien": False, "dtype": "uint32", "excmsg": why}
+    if c["kind"] == "kernel":
+        rk = _ranks(list(c["A"]) + list(c["B"]))
+        ev.update(op=c["op"], A=[rk[x] for x in c["A"]], B=[rk[x] for x in c["B"]], ret=[])
+    elif c["kind"] == "wrapper":
+        rk = _ranks(list(c["a"] or []) + list(c["b"] or []))
+        O = lambda x: {"none": x is None, "v": [rk[v] for v in (x or [])]}  # noqa
+        ev.update(op=c["op"], a=O(c["a"]), b=O(c["b"]), r={"none": True, "v": []})
+    else:
+        rk = _ranks([x for a in c["L"] for x in a])
+        ev.update(L=[[rk[x] for x in a] for a in c["L"]], ret=[])
+    return ev
+
+
 def execute_guarded(cases, so, workdir="."):
     """Run every case in child processes with the operands placed against inaccessible pages. A child that dies
-    (SIGSEGV/SIGBUS) marks the case it was executing with guard=True (reported through the `asan` field) and a new
-    child continues with the next case."""
-    events = []
-    start = 0
-    deaths = 0
-    while start < len(cases):
-        inp = os.path.join(workdir, "gcases.json")
-        outp = os.path.join(workdir, "gevents.json")
-        prog = os.path.join(workdir, "gprogress")
-        json.dump(cases[start:], open(inp, "w"))
+    (SIGSEGV/SIGBUS at the access, or abort()/SIGSEGV later from a heap the kernel has written over) is bisected:
+    the two halves of its cases are run again in fresh children, down to single cases; a single case whose child
+    dies is reported with guard=True (through the `asan` field). A fault is attributed to a case only when the case
+    kills a child all by itself or as the last of the smallest dying run."""
+    inp = os.path.join(workdir, "gcases.json")
+    outp = os.path.join(workdir, "gevents.json")
+    prog = os.path.join(workdir, "gprogress")
+    root = str(Path(__file__).resolve().parents[2])
+    budget = [400]
+
+    def child(chunk):
+        json.dump(chunk, open(inp, "w"))
         for f in (outp, prog):
             if os.path.exists(f):
                 os.unlink(f)
         cmd = [sys.executable, "-c",
                "import sys, json; sys.path.insert(0, %r); from harness.drivers import kernels as k; "
                "m = k._load_standalone(%r); g = k.GuardPages(); ev = k.execute(json.load(open(%r)), m, None, g, %r); "
-               "json.dump(ev, open(%r, 'w'))"
-               % (str(Path(__file__).resolve().parents[2]), so, inp, prog, outp)]
+               "json.dump(ev, open(%r, 'w'))" % (root, so, inp, prog, outp)]
         p = subprocess.run(cmd, capture_output=True, text=True, timeout=3600)
         if p.returncode == 0 and os.path.exists(outp):
-            evs = json.load(open(outp))
-            for e in evs:
-                e["tid"] += start
-            events += evs
-            break
-        if p.returncode >= 0 or not os.path.exists(prog):
+            return json.load(open(outp)), None
+        if p.returncode > 0 and "Traceback" in (p.stderr or ""):
             raise RuntimeError("guarded kernel subprocess failed rc=%s\n%s" % (p.returncode, (p.stdout + p.stderr)[-1500:]))
-        # killed by a signal while executing case number `done` (1-based within this chunk)
-        done = int(open(prog).read())
-        deaths += 1
-        if deaths > 200:
-            raise RuntimeError("more than 200 guard-page faults")
-        # events for the cases before the fatal one are re-computed in-process-free fashion: rerun that prefix
-        if done > 1:
-            json.dump(cases[start:start + done - 1], open(inp, "w"))
-            p2 = subprocess.run(cmd, capture_output=True, text=True, timeout=3600)
-            if p2.returncode != 0:
-                raise RuntimeError("guarded prefix rerun failed")
-            evs = json.load(open(outp))
+        done = int(open(prog).read()) if os.path.exists(prog) else 0
+        return None, (p.returncode, done)
+
+    def run(lo, hi):
+        """events for cases[lo:hi], tids relative to the whole list"""
+        if lo >= hi:
+            return []
+        evs, death = child(cases[lo:hi])
+        if evs is not None:
             for e in evs:
-                e["tid"] += start
-            events += evs
-        c = cases[start + done - 1]
-        ev = {"tid": start + done, "kind": c["kind"], "oob": False, "asan": True, "exc": False, "alien": False, "dtype": "uint32",
-              "excmsg": "child killed by signal %d (access outside the operand buffers: guard page)" % (-p.returncode)}
-        if c["kind"] == "kernel":
-            rk = _ranks(list(c["A"]) + list(c["B"]))
-            ev.update(op=c["op"], A=[rk[x] for x in c["A"]], B=[rk[x] for x in c["B"]], ret=[])
-        elif c["kind"] == "wrapper":
-            rk = _ranks(list(c["a"] or []) + list(c["b"] or []))
-            O = lambda x: {"none": x is None, "v": [rk[v] for v in (x or [])]}  # noqa
-            ev.update(op=c["op"], a=O(c["a"]), b=O(c["b"]), r={"none": True, "v": []})
-        else:
-            rk = _ranks([x for a in c["L"] for x in a])
-            ev.update(L=[[rk[x] for x in a] for a in c["L"]], ret=[])
-        events.append(ev)
-        start += done
-    return events
+                e["tid"] += lo
+            return evs
+        budget[0] -= 1
+        if budget[0] < 0:
+            raise RuntimeError("more than 400 dying children")
+        rc, done = death
+        why = "child %s (access outside the operand or result buffers)" % (("killed by signal %d" % -rc) if rc < 0 else ("exited with %d" % rc))
+        if hi - lo == 1:
+            return [_guard_event(cases[lo], lo + 1, why)]
+        if 1 <= done <= hi - lo and rc < 0:
+            # died while executing case number `done` of this chunk: everything before it is run again on its own (it may
+            # die too, if the damage was done earlier), the case itself alone, the rest afterwards
+            k = lo + done - 1
+            return run(lo, k) + run(k, k + 1) + run(k + 1, hi)
+        mid = (lo + hi) // 2
+        return run(lo, mid) + run(mid, hi)
+
+    return run(0, len(cases))
